@@ -361,6 +361,14 @@ func (fc *FnCtx) applyContract(s *State, x *ssa.Call, ct *Contract, callee *ssa.
 	in := ssa.Instruction(x)
 	site := fc.callOrd[in]
 	names := paramNames(callee, sig, x.Common().IsInvoke())
+	resSig := sig
+	if ct.SameAs != "" {
+		// the clauses were written for the twin function: use its parameter and result names
+		if twin := fc.eng.funcs[ct.SameAs]; twin != nil {
+			names = paramNames(twin, twin.Signature, false)
+			resSig = twin.Signature
+		}
+	}
 	if ct.Extern && len(names) != len(args) {
 		// extern header may name parameters itself: func(x, y) in the header
 		names = externParamNames(ct.Header, len(args))
@@ -440,7 +448,7 @@ func (fc *FnCtx) applyContract(s *State, x *ssa.Call, ct *Contract, callee *ssa.
 		rv := fc.freshVal(fmt.Sprintf("r_%s_%d", mangle(site), i), res.At(i).Type())
 		s.assume(fc.typeAssume(rv, s.heap["nalloc"], s.heap["nobj"]))
 		rets = append(rets, rv)
-		if n := res.At(i).Name(); n != "" && n != "_" {
+		if n := resSig.Results().At(i).Name(); n != "" && n != "_" {
 			post.names[n] = rv
 		}
 		post.names[fmt.Sprintf("result%d", i)] = rv
@@ -450,6 +458,15 @@ func (fc *FnCtx) applyContract(s *State, x *ssa.Call, ct *Contract, callee *ssa.
 	}
 	for _, c := range ct.Ensures {
 		s.assume(fc.evalSpecBool(post, c.E))
+	}
+	if fc.ct != nil {
+		for _, h := range fc.ct.Hints {
+			if h.Where == "after:"+site {
+				henv := &Env{fc: fc, names: map[string]Val{}, cellsAt: s, heap: s.heap, oldNames: fc.entry, oldHeap: fc.oldHeap, pos: x.Pos(),
+					nalloc0: fc.nalloc0, nobj0: fc.nobj0}
+				fc.applyHint(s, henv, h, "after "+site)
+			}
+		}
 	}
 	k(s, tupleOrSingle(rets, res))
 }
